@@ -449,7 +449,7 @@ def searchC13 : List Hit × Nat × Nat := Id.run do
           let exec := scanTable lay cols (some rg)
           let ok := match exec with
             | .ok rows => sameResult [] cols rows spec
-            | .panic _ => false
+            | .panic _ => sameResult [] cols [] spec
           if !ok then
             bad := bad + 1
             let tags := (if cols.head? != some k then ["range:key-not-first-scanned"] else []) ++
@@ -467,6 +467,13 @@ def searchC13 : List Hit × Nat × Nat := Id.run do
             hits := addHit hits ⟨a, size, "(found c13 (attr " ++ a ++ ") (ncols " ++ toString ncols ++ ") (key " ++ toString k ++
               ") (cols " ++ " ".intercalate (cols.map toString) ++ ") (range " ++ showBnd lo ++ " " ++ showBnd hi ++ ") (rowsets " ++ showLay k lay ++ "))"⟩
   return (hits, n, bad)
+
+def permsOf {α} : List α → List (List α)
+  | [] => [[]]
+  | [a] => [[a]]
+  | [a, b] => [[a, b], [b, a]]
+  | [a, b, c] => [[a, b, c], [a, c, b], [b, a, c], [b, c, a], [c, a, b], [c, b, a]]
+  | l => [l]
 
 /-- C12: `SELECT key FROM t ORDER BY key [DESC] [LIMIT n] [OFFSET m]` over every small layout of
 keyed and unkeyed one/two-column tables, planned the way the optimizer does (`limit-order-topn`
@@ -491,9 +498,12 @@ def searchC12 : List Hit × Nat × Nat := Id.run do
             if lim.isSome || off != 0 then .topn lim off ks scanK
             else if isOrderBy t ks scanK then scanK else .order ks scanK
           let spec := specPlan lay bound
-          let ok := match execPlan lay opt with
+          -- the snapshot iterates its row-sets in hash-set order: a robust witness must fail for
+          -- EVERY order of the row-sets (a panicking executor task = a statement with no rows)
+          let okFor := fun (l : List RowSet) => match execPlan l opt with
             | .ok rows => sameResult ks [k] rows spec
-            | .panic _ => false
+            | .panic _ => sameResult ks [k] [] spec
+          let ok := (permsOf lay).any okFor
           if !ok then
             bad := bad + 1
             let tags := tagsOf t lay bound opt
